@@ -1,4 +1,4 @@
-import StamModel.StamqlC
+import StamModel.StamqlQ
 import StamModel.Driver.Tv
 open Stam
 namespace Driver
@@ -82,7 +82,19 @@ def showCn : QL.Cn → String
   | .dataVar v q => s!"datavar {hexOf v} {showQual q}"
   | .keyValueVar v o q => s!"keyvaluevar {hexOf v} {showQual q} {showOp o}"
 
-/-- `ql arg <hex>` / `ql type <hex> <quoted>` / `ql op <ophex> <valuehex> <quoted>` / `ql cn <hex>` -/
+/-- canonical rendering of a SELECT query -/
+partial def showQ : QL.Q → String
+  | .mk opt ty name cs subs =>
+    let n := match name with | some n => hexOf n | none => "~"
+    s!"(S {if opt then 1 else 0} {String.ofList ty.upper} {n} [" ++ "; ".intercalate (cs.map showCn) ++ "] {" ++
+      " ".intercalate (subs.map showQ) ++ "})"
+
+/-- the external functions for a query line: `bad` lists (hex, comma separated) the strings `Regex::new` refuses -/
+def extOf (bad : String) : QL.Ext :=
+  let badList := if bad = "-" then [] else (bad.splitOn ",").filterMap unhex
+  { parseI := parseIsize, parseF := parseFloatLit, isDt := isDatetimeLit, regexOk := fun s => !badList.contains s }
+
+/-- `ql arg <hex>` / `ql type <hex> <quoted>` / `ql op <ophex> <valuehex> <quoted>` / `ql cn <hex> <reok>` / `ql q <hex> <bad>` -/
 def ql (args : List String) : String :=
   match args with
   | ["arg", h] =>
@@ -112,6 +124,16 @@ def ql (args : List String) : String :=
         let printed := match QL.printCn (fun n => (toString n).toList) c with | some t => hexOf t | none => "~"
         s!"ok | {showCn c} | {hexOf r} | {printed}"
       | .err m => if m = "unmodelled" then "unmodelled" else "err"
+      | .panic m => "panic:" ++ m
+    | none => "bad-op"
+  | ["q", h, bad] =>
+    match unhex h with
+    | some s =>
+      match QL.parseQuery (extOf bad) s with
+      | .ok (q, r) =>
+        let printed := match QL.printQ (fun n => (toString n).toList) q with | some t => hexOf t | none => "~"
+        s!"ok | {showQ q} | {hexOf r} | {printed}"
+      | .err m => if m = "unmodelled" then "skip-unmodelled" else if m = "fuel" then "fuel" else "err"
       | .panic m => "panic:" ++ m
     | none => "bad-op"
   | _ => "bad-op"
